@@ -131,6 +131,19 @@ def str_method(x, st, recv, name, pos, kw, node, chain):
             # empty-pattern case is left uninterpreted
             r = z3.If(z3.Length(t) == 0, z3.Function("py_replace_empty", S, S, S)(s, u),
                       _replace_all(s, t, u))
+            if z3.is_string_value(t) and z3.is_string_value(u):
+                ct, cu = smt._z3str_to_py(t), smt._z3str_to_py(u)
+                if len(ct) == 1 and len(cu) == 1:
+                    # single character replaced by a single character: length and every occurrence of a
+                    # constant that contains neither character are preserved (axioms of the uninterpreted symbol)
+                    ra = _replace_all(s, t, u)
+                    st.pc.append(z3.Length(ra) == z3.Length(s))
+                    for k in (":", "Main:"):
+                        if ct not in k and cu not in k:
+                            kv = z3.StringVal(k)
+                            st.pc.append(z3.Contains(ra, kv) == z3.Contains(s, kv))
+                            st.pc.append(z3.PrefixOf(kv, ra) == z3.PrefixOf(kv, s))
+                    st.pc.append(z3.Implies(z3.Not(z3.Contains(s, t)), ra == s))
             return [(st, vstr(r))]
         return [(st, fresh("str", "repl"))]
     if name == "join":
